@@ -7,6 +7,7 @@ import (
 	"fmt"
 	"io"
 	"net/http"
+	"net/url"
 	"os"
 	"path/filepath"
 	"sort"
@@ -14,6 +15,7 @@ import (
 	"sync"
 	"time"
 
+	"github.com/influxdata/kapacitor"
 	"github.com/influxdata/kapacitor/client/v1"
 	"github.com/influxdata/kapacitor/server"
 	"github.com/influxdata/kapacitor/services/diagnostic"
@@ -175,6 +177,65 @@ func (v *srv) associations() ([]string, error) {
 	})
 	sort.Strings(out)
 	return out, err
+}
+
+// feed writes the points of op to POST /kapacitor/v1/write?db=&rp= (the documented data
+// entry of the API, client/API.md "Writing Data") and returns once the server has handed all
+// of them to the executions listening on that db.rp.
+//
+// The write request is answered before the points are distributed (TaskMaster.WritePoints
+// queues them for one forking goroutine), so a point could otherwise still reach an execution
+// that is started by a LATER request of the history. To know when the queue is through, the
+// harness registers a fork of its own for measurement 'c14sync' on the db.rp (TaskMaster.NewFork,
+// what a starting stream task calls), ends the request body with one point of that measurement
+// and waits for it: the queue is first-in first-out and served by a single goroutine.
+//
+// step makes the times of later feeds later.
+func (v *srv) feed(op Op, step int) (status int, errText string) {
+	const syncFork = "verif-c14-sync"
+	d := op.DBRPs[0]
+	base := time.Date(2020, 1, 1, 0, 0, 0, 0, time.UTC).Add(time.Duration(step) * time.Hour)
+	var sb strings.Builder
+	for i := 0; i < op.N; i++ {
+		fmt.Fprintf(&sb, "boom,h=h%d v=%di %d\n", i, 10+i, base.UnixNano())
+	}
+	fmt.Fprintf(&sb, "boom,h=later v=99i %d\n", base.Add(time.Second).UnixNano())
+	fmt.Fprintf(&sb, "c14sync v=1i %d\n", base.Add(2*time.Second).UnixNano())
+
+	e, err := v.s.TaskMaster.NewFork(syncFork, []kapacitor.DBRP{{Database: d.DB, RetentionPolicy: d.RP}}, []string{"c14sync"})
+	if err != nil {
+		return 0, "harness: NewFork: " + err.Error()
+	}
+	defer v.s.TaskMaster.DelFork(syncFork)
+
+	q := url.Values{"db": {d.DB}, "rp": {d.RP}, "precision": {"n"}}
+	req, err := http.NewRequest("POST", v.s.HTTPDService.URL()+"/write?"+q.Encode(), strings.NewReader(sb.String()))
+	if err != nil {
+		return 0, "harness: " + err.Error()
+	}
+	resp, err := v.st.RoundTrip(req)
+	if err != nil {
+		return 0, err.Error()
+	}
+	body, _ := io.ReadAll(resp.Body)
+	resp.Body.Close()
+	if resp.StatusCode/100 != 2 {
+		return resp.StatusCode, string(body)
+	}
+	got := make(chan bool, 1)
+	go func() {
+		_, ok := e.Emit()
+		got <- ok
+	}()
+	select {
+	case ok := <-got:
+		if !ok {
+			return 0, "harness: the sync fork was closed before the last point of the feed arrived"
+		}
+	case <-time.After(hangBound):
+		return 0, fmt.Sprintf("harness: the last point of the feed was not distributed within %v", hangBound)
+	}
+	return resp.StatusCode, ""
 }
 
 func copyFile(src, dst string) error {
